@@ -3,8 +3,9 @@ CONSTANTS
   U = 1024
   RootT = 4
   Family = "termteval"
-  Grids <- Grids_t2
+  Grids <- Grids_ev
   MaxT = 2
-  MaxRoots = 2
+  MaxRoots = 1
+  KAll = TRUE
   Known <- Known_none
 INVARIANTS ContractHolds Emit
